@@ -1,6 +1,7 @@
 package main
 
 import (
+	"crypto/sha256"
 	"encoding/json"
 	"fmt"
 	"os"
@@ -120,12 +121,19 @@ func runOneMutant(self, verif, repo, prop, patch, kind string) mutantResult {
 		res.Result, res.Reported = "not-applicable", "patch does not apply to the current tree: "+firstLine(string(out))
 		return res
 	}
-	run := exec.Command(self, "-repo", dir, "-verif", verif, "-property", prop, "-tier", "quick", "-no-evidence")
-	out, err := run.CombinedOutput()
-	text := string(out)
+	var text string
 	code := 0
-	if ee, ok := err.(*exec.ExitError); ok {
-		code = ee.ExitCode()
+	if kind == "equivalent" {
+		// behaviour-preserving patches are checked against every property; one `-property all` run per patch is shared by
+		// the thorough runs of all 20 properties through a cache keyed by patch, checker binary and repository content
+		text, code = runAllCached(self, verif, repo, dir, patch, prop)
+	} else {
+		run := exec.Command(self, "-repo", dir, "-verif", verif, "-property", prop, "-tier", "quick", "-no-evidence")
+		out, err := run.CombinedOutput()
+		text = string(out)
+		if ee, ok := err.(*exec.ExitError); ok {
+			code = ee.ExitCode()
+		}
 	}
 	if strings.Contains(text, "CHECKER FAILURE: load failed") {
 		res.Result, res.Reported = "does-not-load", firstLine(text)
@@ -157,6 +165,84 @@ func runOneMutant(self, verif, repo, prop, patch, kind string) mutantResult {
 	}
 	res.Reported = strings.Join(lines, " | ")
 	return res
+}
+
+// runAllCached returns the output lines and exit status that concern property prop of `hidicheck -property all` on
+// the patched copy in dir; results are cached under <verif>/.cache/benign (safe to delete at any time).
+func runAllCached(self, verif, repo, dir, patch, prop string) (string, int) {
+	h := sha256.New()
+	for _, f := range []string{patch, self} {
+		if data, err := os.ReadFile(f); err == nil {
+			h.Write(data)
+		}
+	}
+	filepath.Walk(repo, func(path string, info os.FileInfo, err error) error {
+		if err != nil {
+			return nil
+		}
+		if info.IsDir() {
+			if info.Name() == ".git" {
+				return filepath.SkipDir
+			}
+			return nil
+		}
+		if strings.HasSuffix(path, ".go") || strings.HasSuffix(path, "go.mod") {
+			if data, err := os.ReadFile(path); err == nil {
+				h.Write([]byte(path))
+				h.Write(data)
+			}
+		}
+		return nil
+	})
+	key := fmt.Sprintf("%x", h.Sum(nil))[:32]
+	cdir := filepath.Join(verif, ".cache", "benign")
+	cfile := filepath.Join(cdir, key+".json")
+	type entry struct {
+		Code int    `json:"code"`
+		Text string `json:"text"`
+	}
+	res := map[string]entry{}
+	if data, err := os.ReadFile(cfile); err == nil && json.Unmarshal(data, &res) == nil {
+		if e, ok := res[prop]; ok {
+			return e.Text, e.Code
+		}
+	}
+	run := exec.Command(self, "-repo", dir, "-verif", verif, "-property", "all")
+	out, _ := run.CombinedOutput()
+	text := string(out)
+	res = map[string]entry{}
+	if strings.Contains(text, "CHECKER FAILURE") {
+		return text, 1 // not cached: a load failure concerns every property
+	}
+	// split the output per property: each property's summary line is followed by its VIOLATED/UNDECIDED lines
+	curID := ""
+	for _, l := range strings.Split(text, "\n") {
+		if strings.HasPrefix(l, "property=") {
+			curID = strings.TrimPrefix(strings.Fields(l)[0], "property=")
+			code := 0
+			if !strings.Contains(l, " violations=0 ") {
+				code = 1
+			}
+			res[curID] = entry{Code: code, Text: l}
+			continue
+		}
+		if curID != "" && (strings.Contains(l, "VIOLATED") || strings.Contains(l, "UNDECIDED")) {
+			e := res[curID]
+			e.Text += "\n" + l
+			res[curID] = e
+		}
+	}
+	if data, err := json.Marshal(res); err == nil {
+		os.MkdirAll(cdir, 0o777)
+		tmp := fmt.Sprintf("%s.%d.tmp", cfile, os.Getpid())
+		if os.WriteFile(tmp, data, 0o666) == nil {
+			os.Rename(tmp, cfile)
+		}
+	}
+	if e, ok := res[prop]; ok {
+		return e.Text, e.Code
+	}
+	return text, 1
 }
 
 func firstLine(s string) string {
